@@ -85,6 +85,7 @@ type fn struct {
 	pure      bool // does not mutate anything the caller can see (printing is allowed)
 	cost      int
 	panics    bool // contains a reachable panic() that it does not recover itself
+	rangeRet  bool // returns from inside a range loop, or calls a function that does
 	recursive bool // first parameter is the decreasing counter: call with a small literal
 }
 
